@@ -489,12 +489,14 @@ std::string sqf::parser::preprocessor::impl_default::instance::handle_arg(::sqf:
             sstream << c;
             continue;
         }
-        switch (c)
-        {
-            case '"':
+        if (c == '"' && !inside_word)
+        { // a quote that ends a word is handled like any other delimiter first (the word gets flushed, the quote read again)
             string_mode = true;
             sstream << c;
-            break;
+            continue;
+        }
+        switch (c)
+        {
             case 'a': case 'b': case 'c': case 'd': case 'e':
             case 'f': case 'g': case 'h': case 'i': case 'j':
             case 'k': case 'l': case 'm': case 'n': case 'o':
@@ -526,8 +528,8 @@ std::string sqf::parser::preprocessor::impl_default::instance::handle_arg(::sqf:
                 auto res = try_get_macro(word);
                 if (res.has_value())
                 {
-                    if (res.value().is_callable())
-                    {
+                    if (res.value().is_callable() && !part_of_word)
+                    { // hand the delimiter back: it may be the '(' of the argument list
                         local_fileinfo.move_back();
                     }
                     auto handled = handle_macro(runtime, local_fileinfo, original_fileinfo, res.value(), param_map);
